@@ -257,9 +257,22 @@ func effBatch(c cfg) int {
 	return c.Batch
 }
 
-func runHistory(k *vf.Case) {
+// focused family: Emit, ForceFlush and Shutdown all overlapping, with a slow exporter and a tiny export
+// buffer, so that the windows around the final flush of Shutdown are exercised densely.
+func runShutdownRace(k *vf.Case) {
+	runWith(k, func(r *vf.RNG) cfg {
+		return cfg{Queue: vf.Pick(r, []int{8, 64, 2048}), Batch: vf.Pick(r, []int{1, 2}), Buffer: vf.Pick(r, []int{1, 2}),
+			Interval: vf.Pick(r, []time.Duration{time.Millisecond, 10 * time.Millisecond}), Timeout: time.Second,
+			ExpMode: vf.Pick(r, []int{0, 1, 1}), Producers: vf.Pick(r, []int{2, 4, 8}), PerProducer: 10 + r.Intn(40),
+			Flushers: 2 + r.Intn(2), Shutdowners: 1, Procs: vf.Pick(r, []int{2, 4, 16})}
+	})
+}
+
+func runHistory(k *vf.Case) { runWith(k, genCfg) }
+
+func runWith(k *vf.Case, gen func(*vf.RNG) cfg) {
 	r := k.R
-	c := genCfg(r)
+	c := gen(r)
 	prev := runtime.GOMAXPROCS(c.Procs)
 	defer runtime.GOMAXPROCS(prev)
 	theSink.reset()
@@ -653,7 +666,8 @@ func main() {
 		}
 		n := c.N(3000, 36000)
 		c.Isolated("histories", n, vf.IsoOpts{Batch: 50, Par: 16, Timeout: 10 * time.Minute}, runHistory)
-		c.Floor("histories", int64(n*9/10))
+		c.Isolated("shutdown-race", c.N(3000, 36000), vf.IsoOpts{Batch: 50, Par: 16, Timeout: 10 * time.Minute}, runShutdownRace)
+		c.Floor("histories", int64(n*18/10))
 		c.Floor("histories_with_ring_overflow", 10)
 		c.Floor("histories_flush_overlaps_export", 10)
 		c.Floor("visibility_checks", 200)
